@@ -2376,6 +2376,12 @@ class x86_mn(x86_mn_base):
 
             if m is None:
                 return None
+            if m.modifs[mmx]:
+                # mandatory prefix for which the table has no instruction
+                p = [_ for _ in read_prefix if _ in mmx_prefixes[1:]]
+                p = mmx_prefixes.index(p[-1]) if p else 0
+                if 'INVALID' in mmx_set_suffix(m.name, p):
+                    return None
             self.m = m
 
             log.debug(m)
